@@ -72,7 +72,11 @@ func propRegistry() map[string]PropSpec {
 		Bounds:      map[string]string{"threads": "3", "outcomes": "cacheable / hit-for-pass per fetch, any sequence"},
 	})
 	add(PropSpec{
-		ID: "C20",
+		ID:    "C20",
+		Level: "model_checking",
+		Harnesses: []HarnessSpec{
+			{Pkg: "cache", Fn: "Harness_C20_publication_immutable", Init: initCache, Reach: []string{"C20.pub.cacheable", "C20.pub.hfp"}, EngineOnly: true},
+		},
 		BMC: []BMCSpec{
 			{Name: "entry3", Pkg: "cache", Fn: "Harness_BMC_entry3", Init: initCache, Only: []string{"race-free", "no-panic", "C02.hit-carries", "every-thread-completes"}},
 		},
@@ -348,10 +352,11 @@ func propRegistry() map[string]PropSpec {
 		Harnesses: []HarnessSpec{
 			{Pkg: "cache", Fn: "Harness_C18_purge", Init: initCache, Reach: []string{"C18.named", "C18.unnamed", "C18.absent-cache", "C18.absent-key"}},
 			{Pkg: "cache", Fn: "Harness_C18_others_untouched", Init: initCache, Reach: []string{"C18.others.end"}, EngineOnly: true},
+			{Pkg: "cache", Fn: "Harness_C18_purge_during_fetch", Init: initCache, Reach: []string{"C18.racing.end"}},
 			{Pkg: "cache", Fn: "Harness_C08_dispatcher_wiring", Init: initCache, Reach: []string{"C08.wiring.end"}},
 			{Pkg: "cache", Fn: "Harness_C06_lookup", Init: initCache, Reach: []string{"C06.lookup.end"}, EngineOnly: true},
 		},
-		Explanation: "Sequential purge semantics on the real dispatchers/dispatcher/lru code with symbolic keys and an uninterpreted hash: after a named purge the next lookup yields a fresh entry whose Get() is fetching and the persisted copy is gone (also when the key is not resident, e.g. after a restart); an unnamed purge does so in every cache; purging an absent cache or key changes nothing; other keys keep their entries. The purge-racing-a-fetch clause is decided by the BMC system.",
+		Explanation: "Sequential purge semantics on the real dispatchers/dispatcher/lru code with symbolic keys and an uninterpreted hash: after a named purge the next lookup yields a fresh entry whose Get() is fetching and the persisted copy is gone (also when the key is not resident, e.g. after a restart); an unnamed purge does so in every cache; purging an absent cache or key changes nothing; other keys keep their entries. A purge completing while a fetch is in flight: it takes only the shard lock (a blocking purge would show as no-deadlock), leaves the detached entry and its waiter list untouched, and later requests get a fresh entry (known finding F11 with a store).",
 		Assumptions: []string{"faithful store (C08) or no store", "keys <= 2 bytes, two caches; hash uninterpreted", "sequential histories here; interleavings under BMC"},
 		Encoded:     []string{"cache.(*dispatchers).RemoveHTTPCache", "cache.(*dispatcher).RemoveHTTPCache", "cache.(*httpLRUCache).removeCache", "cache.(*dispatchers).Get", "cache.NewDispatchers"},
 		Bounds:      map[string]string{"history": "populate, one purge of each kind, re-lookup", "keys": "<=2 bytes symbolic"},
